@@ -1,8 +1,11 @@
 (* C14 — Multi-objective optimizers keep a consistent, feasible, elitist population.
-   Only statements + `exact`; proofs live in C14Proofs.v, the executable model in C14Model.v;
-   dominance / rank definition / hv_spec are imported from C13Model.v, C13Proofs.v.
+   Only statements + `exact`; executable models (definitions only): C14Model.v (selection, one-at-a-time loop, penalizing
+   evaluator, steady-state step), C14Ind.v (epsilon / hypervolume / crowding indicators), C14Nsga3.v, C14Var.v (SBX, polynomial
+   mutation, tournament, elitist selection), C14Loop.v (generation loop); proofs: C14Proofs.v, C14IndProofs.v,
+   C14CrowdProofs.v, C14Nsga3Proofs.v, C14VarProofs.v, C14LoopProofs.v; dominance / rank definition / hv_spec /
+   contrib2d are imported from C13Model.v, C13Proofs.v, C13ProofsContrib.v.
 
-   PROVED here (axiom-free; lists, nat, Z; all population sizes, dimensions, mu):
+   PROVED here (axiom-free; lists, nat, Z, Q; all population sizes, dimensions, mu):
      * the model of IndicatorBasedSelection::operator() (whole fronts deselected from the worst rank
        while the rest still has >= mu members, then one leastContributors(front, archive, popSize-mu)
        call) marks exactly mu individuals and never keeps a worse-ranked individual while
@@ -40,7 +43,9 @@
          exhausts its fuel (every round assigns a point or retires a reference direction) and leastContributors returns K
          distinct indices into the front for every solver answer, PROVIDED there is a reference direction and every
          association distance compares below DBL_MAX (n3_finite: no NaN/overflow -- what commit 87210a93 restores for a
-         constant objective); association = a reference direction of the point itself (C14_nsga3_association);
+         constant objective); association = a reference direction of the point itself (C14_nsga3_association); the
+         normalizer is > 0 in every component for every solver answer (C14_nsga3_normalizer_positive, rational instance:
+         the plane branch needs min(w) > 0, the nadir branch replaces a component that is not > 0 by 1);
        - the selection theorems need the indicator to be valid only on the one call the selection makes
          (C14_selection_valid_on_the_call_made), which covers NSGA3Indicator whenever n3_finite holds for that call;
      * variation and mating-selection operators AS CODED (C14Var.v, random draws explicit, std::pow / std::abs arbitrary
@@ -54,6 +59,13 @@
          sort routine returning an ordered permutation (the model's insertion sort is one);
        These are statements over Q.  On doubles the clipping does not catch NaN: PolynomialMutator on a coordinate with
        lower = upper computes 0/0 (see NOT PROVED);
+     * the generation loop shared by RealCodedNSGAII / NSGAIII / MOCMA (offspring -> PenalizingEvaluator -> merge -> selection ->
+       partition -> erase) and by SMS-EMOA / steady-state MOCMA (C14Loop.v; updatePopulation runs next to the model on every
+       check, stream U): for every valid indicator, every history of offspring points (whatever variation and random numbers
+       produce) and every number of generations the population has exactly mu members, every member is a parent or an
+       offspring of its generation, solution() reports (point, f(closest feasible point)) = (point, f(point)) for feasible
+       points, and every predicate on search points that holds initially and for all offspring (inside the box, by the
+       variation theorems) holds for every reported point (C14_generation_loop_invariant);
      * the steady-state theorem with its hypothesis restricted to the fronts the selection can hand over
        (C14_steady_state_hv_monotone_front_hypothesis) and DISCHARGED for the coded 2-objective HypervolumeIndicator path
        (C14_steady_state_hv_monotone_coded_indicator_2d: hypotheses only on the data: 2 objectives, all points <= ref);
@@ -61,21 +73,26 @@
    configured with the SAME fixed reference point (indicator().setReference(r)); with the default
    (no reference) the implicit reference moves and the statement is false for the code.
    NOT PROVED, only compared/monitored on every run (tools/c14.py):
-     * that the C++ contribution routines return a least contributor (exact brute-force check
-       in Python on small-integer fronts, and against contribs_spec extracted from Coq);
-     * 3-D / MD hypervolume contributions inside HypervolumeIndicator (Section variable `other`);
+     * that the C++ contribution routines for 3 and more objectives return a least contributor (Section variable `other`
+       of the model; exact brute-force check in Python on small-integer fronts, and against contribs_spec extracted from
+       Coq); for 2 objectives the tie order std::sort leaves among equal points (the model sorts stably: what libstdc++
+       does on <= 16 elements; the generated fronts stay below that size);
      * CrowdingDistance when some objective is constant over front ++ archive: the C++ divides 0/0, the interior members
        get NaN and std::min_element may then return a boundary member (the float instance of the model reproduces this
        bit for bit and is compared; the rational theorem does not speak about NaN); counted in the evidence notes;
      * PolynomialMutator on a degenerate coordinate lower(i) = upper(i): the C++ yields NaN (0/0, not caught by the clipping);
        the float instance of the model reproduces it; reported to the lead, counted in the evidence notes;
-     * NSGA3Indicator: the plane solver (its answer is re-derived by the harness and handed to the model), and the
-       meaning of the normalisation (only validity of the index set is proved);
-     * the per-generation invariants of MOCMA, SteadyStateMOCMA, SMSEMOA, RealCodedNSGAII/III, MOEAD,
-       RVEA (size, value = objective at the closest feasible point, box, hypervolume monotone). *)
+     * NSGA3Indicator: the plane solver (its answer is re-derived by the harness and handed to the model); that the
+       niche counts equal the number of assigned associated points (only termination + validity of the index set and
+       positivity of the normalizer are proved);
+     * mating selection + variation inside generateOffspring / createOffspring of the optimisers (the operators are
+       modelled and proved separately; their composition with the optimiser's random stream is only observed);
+       MOEAD and RVEA (different update rules: monitored only); CMA step-size / covariance updates (C11);
+     * the per-generation invariants on the REAL optimiser runs of MOCMA, SteadyStateMOCMA, SMSEMOA, RealCodedNSGAII/III,
+       MOEAD, RVEA (size, value = objective at the closest feasible point, box, hypervolume monotone): monitored. *)
 From Coq Require Import List ZArith Arith QArith.
 From SharkV Require Import ListAux C13Model C13Proofs C13ProofsContrib C14Model C14Proofs C14Ind C14IndProofs.
-From SharkV Require Import C14Nsga3 C14Nsga3Proofs C14CrowdProofs C14Var C14VarProofs.
+From SharkV Require Import C14Nsga3 C14Nsga3Proofs C14CrowdProofs C14Var C14VarProofs C14Loop C14LoopProofs.
 Import ListNotations.
 Close Scope Q_scope.
 
@@ -299,6 +316,12 @@ Theorem C14_nsga3_least_contributors_valid :
 Proof. exact nsga3_lcs_valid. Qed.
 Print Assumptions C14_nsga3_least_contributors_valid.
 
+Theorem C14_nsga3_normalizer_positive :
+  forall (maxval eps : Q) (solve : list (list Q) -> option (list Q)) points x,
+    In x (n3_normalizer Q 0%Q 1%Q maxval eps Qplus Qminus Qmult Qdiv qlt solve points) -> (0 < x)%Q.
+Proof. exact n3_normalizer_positive. Qed.
+Print Assumptions C14_nsga3_normalizer_positive.
+
 Theorem C14_selection_valid_on_the_call_made :
   forall (lcs : list point -> list point -> nat -> list nat) r S mu,
     1 <= mu <= length r -> (forall i, i < length r -> 1 <= nth i r 0) ->
@@ -446,3 +469,62 @@ Theorem C14_variation_example :
   elitist (pos_isort (fun i => nth i [3; 1; 2; 1; 5] 0)) 5 2 = [false; true; false; true; false].
 Proof. exact variation_example. Qed.
 Print Assumptions C14_variation_example.
+
+(* ------------------------------------------------------------------------------------------ *)
+(* the generation loop (C14Loop.v) *)
+
+Theorem C14_generational_update_keeps_mu_selected :
+  forall (f : list Z -> list Z) feasible closest alpha lcs mu,
+    valid_oracle lcs -> 1 <= mu -> forall d, (forall x, length (f x) = d) ->
+  forall parents offspring,
+    Forall (consistent f feasible closest alpha) (parents ++ offspring) -> mu <= length (parents ++ offspring) ->
+    gen_update lcs mu parents offspring = keep_g (flags lcs mu (parents ++ offspring)) (parents ++ offspring) /\
+    length (gen_update lcs mu parents offspring) = mu /\
+    forall i, In i (gen_update lcs mu parents offspring) -> In i (parents ++ offspring).
+Proof. exact gen_update_spec. Qed.
+Print Assumptions C14_generational_update_keeps_mu_selected.
+
+Theorem C14_steady_state_update_keeps_size :
+  forall lcs mu parents o,
+    length (ss_update lcs mu parents o) = length parents /\
+    forall i, In i (ss_update lcs mu parents o) -> In i (parents ++ [o]).
+Proof. exact ss_update_spec. Qed.
+Print Assumptions C14_steady_state_update_keeps_size.
+
+Theorem C14_generation_loop_invariant :
+  forall (f : list Z -> list Z) feasible closest alpha m lcs mu d (P : list Z -> Prop),
+    valid_oracle lcs -> 1 <= mu -> (forall x, length (f x) = d) ->
+    forall pop0, inv f feasible closest alpha mu P pop0 ->
+    (forall history, Forall (Forall P) history ->
+       let pop := run_gen f feasible closest alpha m lcs mu history pop0 in
+       inv f feasible closest alpha mu P pop /\
+       length (solution pop) = mu /\
+       forall x v, In (x, v) (solution pop) ->
+         P x /\ v = f (repaired feasible closest x) /\ (feasible x = true -> v = f x)) /\
+    (forall history, Forall P history ->
+       let pop := run_ss f feasible closest alpha m lcs mu history pop0 in
+       inv f feasible closest alpha mu P pop /\
+       length (solution pop) = mu /\
+       forall x v, In (x, v) (solution pop) ->
+         P x /\ v = f (repaired feasible closest x) /\ (feasible x = true -> v = f x)).
+Proof. exact generation_loop_invariant. Qed.
+Print Assumptions C14_generation_loop_invariant.
+
+Theorem C14_initial_population_satisfies_invariant :
+  forall (f : list Z -> list Z) feasible closest alpha mu (P : list Z -> Prop) (points : list (list Z)),
+    1 <= mu -> length points = mu -> Forall (fun x => feasible x = true /\ P x) points ->
+    inv f feasible closest alpha mu P (map (fun x => mk_ind x (f x) (f x)) points).
+Proof. exact initial_population_inv. Qed.
+Print Assumptions C14_initial_population_satisfies_invariant.
+
+Theorem C14_loop_example :
+  let feasible := box_feasible [0%Z] [6%Z] in let closest := box_closest [0%Z] [6%Z] in
+  let pop0 := map (fun x => mk_ind x (loop_fex x) (loop_fex x)) [[1]; [3]; [5]]%Z in
+  valid_oracle eps_lcs /\ (forall x, length (loop_fex x) = 2) /\
+  inv loop_fex feasible closest 1000%Z 3 (fun _ => True) pop0 /\
+  solution (run_gen loop_fex feasible closest 1000%Z 0 eps_lcs 3 [[[2]; [9]]; [[4]; [0]]]%Z pop0) =
+    [([2], [2; 4]); ([4], [4; 2]); ([0], [0; 6])]%Z /\
+  solution (run_ss loop_fex feasible closest 1000%Z 0 eps_lcs 3 [[2]; [9]; [4]]%Z pop0) =
+    [([4], [4; 2]); ([3], [3; 3]); ([5], [5; 1])]%Z.
+Proof. exact loop_example. Qed.
+Print Assumptions C14_loop_example.
